@@ -52,6 +52,7 @@ class ContractDef:
         self.lemmas = opts.pop('lemmas', ())
         self.patches = opts.pop('patches', ())
         self.no_crosscheck = opts.pop('no_crosscheck', False)
+        self.tier = opts.pop('tier', 'quick')      # 'thorough': only run by the thorough tier
         self.doc = (fn.__doc__ or '').strip()
         if opts:
             raise TypeError("unknown contract options %r" % (opts,))
@@ -479,7 +480,7 @@ class PathRun:
         self.tb = tb
 
 
-def explore(cdef, max_paths=None, feas_timeout_ms=3000):
+def explore(cdef, max_paths=None, feas_timeout_ms=800):
     max_paths = max_paths or cdef.max_paths
     work = [[]]
     runs = []
@@ -569,6 +570,46 @@ def solve(assertions, timeout_ms, want_model=True, second=False):
     if c == 'unsat':
         return 'unsat', None, 'cvc5', time.time() - t0
     return 'unknown', None, 'z3+cvc5', time.time() - t0
+
+
+def _conjuncts(cond):
+    """split  A and B,  P -> (A and B)  into separately discharged goals"""
+    if z3.is_and(cond):
+        out = []
+        for ch in cond.children():
+            out.extend(_conjuncts(ch))
+        return out
+    if z3.is_implies(cond):
+        p, q = cond.arg(0), cond.arg(1)
+        return [z3.Implies(p, g) for g in _conjuncts(q)]
+    if z3.is_or(cond) and cond.num_args() == 2:
+        a, b = cond.arg(0), cond.arg(1)
+        for u, v in ((a, b), (b, a)):
+            if z3.is_and(v):
+                return [z3.Or(u, g) for g in _conjuncts(v)]
+    return [cond]
+
+
+def solve_split(hyps, cond, timeout_ms):
+    """discharge hyps => cond, conjunct by conjunct; the first sat/unknown conjunct decides"""
+    goals = _conjuncts(cond)
+    if len(goals) == 1:
+        return solve(hyps + [z3.Not(cond)], timeout_ms)
+    total = 0.0
+    backend = 'z3'
+    unknown = None
+    for g in goals:
+        res, model, b, secs = solve(hyps + [z3.Not(g)], timeout_ms)
+        total += secs
+        if b != 'z3':
+            backend = b
+        if res == 'sat':
+            return res, model, b, total
+        if res == 'unknown':
+            unknown = (res, None, b, total)
+    if unknown:
+        return unknown[0], None, unknown[2], total
+    return 'unsat', None, backend, total
 
 
 def _model_float(m, k):
@@ -723,24 +764,23 @@ def verify_contract(cdef, tier='quick', seed=0):
             o['vcs'] += 1
             out['vcs'] += 1
             if rec['kind'] == 'canary':
-                if z3.is_true(cond):
+                if o['status'] == 'discharged':
                     o['status'] = 'canary-proved'
-                    o['detail'] = 'canary clause simplified to true'
+                    o['detail'] = 'a clause that must be refutable was proved on every path: vacuous precondition or unsound encoding'
+                if o['status'] == 'canary-ok' or z3.is_true(cond):
                     continue
                 res, model, backend, secs = solve(path.ax + rec['pc'] + [z3.Not(cond)], min(timeout_ms, 10000))
                 o['solver_s'] += secs
                 out['solver_s'] += secs
                 o['backends'][backend] = o['backends'].get(backend, 0) + 1
-                if res == 'unsat':
-                    o['status'] = 'canary-proved'
-                    o['detail'] = 'a clause that must be refutable was proved: vacuous precondition or unsound encoding'
-                elif o['status'] == 'discharged':
+                if res != 'unsat':
                     o['status'] = 'canary-ok'
+                    o['detail'] = None
                 continue
             if z3.is_true(cond):
                 o['backends']['simplifier'] = o['backends'].get('simplifier', 0) + 1
                 continue
-            res, model, backend, secs = solve(path.ax + rec['pc'] + [z3.Not(cond)], timeout_ms)
+            res, model, backend, secs = solve_split(path.ax + rec['pc'], cond, timeout_ms)
             o['solver_s'] += secs
             out['solver_s'] += secs
             o['backends'][backend] = o['backends'].get(backend, 0) + 1
